@@ -10,6 +10,10 @@ E3 = "procsim (process-level simulator: strace syscall fault / kill injection)"
 
 # id -> (engine, category, technique, level text, level note, design ref)
 CHECKS = {
+ "C18": (E2, "fault_enumeration",
+   "deterministic simulation of the HTTP retry state machine: tough's real HttpTransport/RetryStream on tokio's paused clock, hook H3 answering each built request from an enumerated fault script (5xx, stalls, 4xx, range support)",
+   "Every request tough builds is answered by a scripted server model: 200/206 full, body stalled after k bytes then timing out in virtual time, 500, 503, 403, 404, 410, 400, 416, with or without Accept-Ranges. All scripts up to tries+2 entries are enumerated for resource sizes 0..2 (quick: tries 1..2; thorough: tries 1..4), plus seeded runs up to 256 KiB with randomised back-off, time-out and chunking. Oracle: yielded bytes are a prefix of the resource and complete when the stream ends cleanly; requests <= tries; Range only after Accept-Ranges and at the yielded offset; 403/404/410 => FileNotFound; 400/416 => fatal, no further request; a reference client that completes within the budget implies tough completes.",
+   "reqwest/hyper/TCP/TLS are stubbed below Client::execute; connection-phase errors (is_request) cannot be synthesised; stalls are body-phase only.", "DESIGN.md §5 C18"),
  "C16": (E1, "exploration",
    "deterministic simulation of a Byzantine role namer: hostile delegated role names through client load (URLs requested, datastore), cache_metadata and the real editor's write, observed as I/O on a sandbox tree",
    "Role names over {/ \\ . % ? # : space \\x01 e-acute a 1} enumerated to length 4 (thorough: all 22 620), a hostile dictionary ('.', '..', 'a%2Fb' next to 'a/b', 'x.json', '1.root', ...) and seeded names to length 64; 1..3 roles per repository. Oracle: every requested URL is <metadata base>/<one plain segment>; datastore, cache and editor output hold only plain files directly inside and nothing else in the sandbox changes; N distinct role names give N distinct files at every one of the four places.",
